@@ -169,15 +169,40 @@ func VH_wrap() {
 }
 
 // The PROXY header parser is library code outside the claim; what matters here
-// is that it consumes exactly H bytes from the handler's bufio.Reader.
+// is that it consumes exactly the header from the handler's bufio.Reader. The
+// stream starts with one of three concrete, valid headers, so the engine's
+// replacement ("discard len(header) bytes") and the real parser (used by the
+// native twin) consume the same bytes.
 var hdrLen int
+
+var ppHeaders = [][]byte{
+	// v2, LOCAL command, no addresses (16 bytes)
+	append([]byte("\r\n\r\n\x00\r\nQUIT\n"), 0x20, 0x00, 0x00, 0x00),
+	// v2, PROXY command, TCP over IPv4 (28 bytes)
+	append([]byte("\r\n\r\n\x00\r\nQUIT\n"), 0x21, 0x11, 0x00, 0x0c, 192, 0, 2, 1, 192, 0, 2, 2, 0x03, 0xe8, 0x07, 0xd0),
+	// v1 text header
+	[]byte("PROXY TCP4 192.0.2.1 192.0.2.2 1000 2000\r\n"),
+}
+
+// useHeader makes the abstract stream start with header k.
+func useHeader(k int) {
+	h := ppHeaders[k]
+	hdrLen = len(h)
+	vapi.Assume(len(st.D)-st.base >= len(h))
+	for i := range h {
+		vapi.Assume(st.D[st.base+i] == h[i])
+	}
+}
 
 //verif:replace github.com/mastercactapus/proxyprotocol.Parse
 func Repl_Parse(r *bufio.Reader) (proxyprotocol.Header, error) {
 	n, err := r.Discard(hdrLen)
-	st.base += n
+	_ = n
 	if err != nil {
 		return nil, err
+	}
+	if hdrLen == 16 {
+		return proxyprotocol.HeaderV2{Command: proxyprotocol.CmdLocal}, nil
 	}
 	return &proxyprotocol.HeaderV1{SrcIP: net.IP{192, 0, 2, 1}, DestIP: net.IP{192, 0, 2, 2}, SrcPort: 1000, DestPort: 2000}, nil
 }
@@ -187,7 +212,7 @@ func Repl_Parse(r *bufio.Reader) (proxyprotocol.Header, error) {
 // kilobytes, then a terminal recorder: it must read D[H:].
 func VH_proxyproto() {
 	cx := start(vapi.Param("L", 9000))
-	hdrLen = vapi.Int("H", 16, 536)
+	useHeader(vapi.Choice("header", len(ppHeaders)))
 	n0 := &need{N: vapi.Int("N", 0, vapi.Param("NMAX", 6000)), V: true}
 	pp := &l4proxyprotocol.Handler{}
 	vapi.Assert(pp.Provision(caddy.Context{}) == nil, "provision")
@@ -287,16 +312,13 @@ func VH_step_wrap() {
 
 func VH_step_proxyproto() {
 	cx := startState(vapi.Param("MAXB", 10239), vapi.Param("MAXD", 6000))
-	if vapi.Param("HCHOICE", 0) == 1 {
-		hdrLen = []int{16, 107, 536}[vapi.Choice("H", 3)]
-	} else {
-		hdrLen = vapi.Int("H", 16, 536)
-	}
+	useHeader(vapi.Choice("header", len(ppHeaders)))
 	pp := &l4proxyprotocol.Handler{}
 	vapi.Assert(pp.Provision(caddy.Context{}) == nil, "provision")
 	l4proxyprotocol.VerifQuiet(pp)
+	st.base += hdrLen // the recorder must see the stream right after the header
 	err := chain(pp, recNext{rec{tag: "after-proxy-protocol"}}).Handle(cx)
-	vapi.Log("handle", err)
+	vapi.Assert(err == nil, "the PROXY-protocol handler failed on a valid header")
 }
 
 func VH_step_tee() {
